@@ -46,8 +46,23 @@ def real_process_exploration(rep):
         return
     from common import REPO
     env = dict(os.environ, PYTHONPATH=REPO, VERIF_REPO=REPO)
-    p = subprocess.run(['/venv/bin/python', '-W', 'ignore', script], stdout=subprocess.PIPE, stderr=subprocess.STDOUT, timeout=300, env=env)
-    out = p.stdout.decode(errors='replace')
+    import signal
+    proc = subprocess.Popen(['/venv/bin/python', '-W', 'ignore', script], stdout=subprocess.PIPE, stderr=subprocess.STDOUT, env=env, start_new_session=True)
+    try:
+        raw, _ = proc.communicate(timeout=420)
+        p = proc
+    except subprocess.TimeoutExpired:
+        # a hung probe is a finding of its own (workers that cannot be stopped keep it from finishing): kill the whole group
+        try:
+            os.killpg(proc.pid, signal.SIGKILL)
+        except Exception:  # noqa
+            pass
+        raw, _ = proc.communicate()
+        raw += b'\nPROBE HUNG: killed after 420 s'
+
+        class p:  # noqa
+            returncode = 1
+    out = raw.decode(errors='replace')
     rep.extra['real_process_probe'] = out[-1500:]
     rep.obligation('exploration: real worker processes are gone after shutdown in every probed scenario', p.returncode == 0, out[-300:])
     if p.returncode != 0:
